@@ -4,7 +4,7 @@
    an environment `env` assigns a truth value to every condition atom of the assembly (cors enabled, mode == ...,
    ownHttpServer, ...); "credentials configured" = the atoms of gen_must (login non-empty, password non-empty). *)
 From Coq Require Import List String Ascii Bool NArith.
-From Qryn Require Import model.Auth model.Router proofs.AuthProofs proofs.RoutesProofs gen.GenRoutes.
+From Qryn Require Import model.Auth model.Router proofs.AuthProofs proofs.B64Inv proofs.RoutesProofs gen.GenRoutes.
 Import ListNotations.
 Open Scope string_scope.
 
@@ -106,6 +106,24 @@ Theorem b64_roundtrip : forall s, b64_go (b64_encode s) [] = (s, true).
 Proof. exact b64_roundtrip. Qed.
 Print Assumptions b64_roundtrip.
 
+(* "exactly the credentials" is literal: whatever BasicAuthMiddleware lets through spells, after "Basic " and apart
+   from CR/LF bytes (which the decoder skips), the encoder's text of every complete 3-byte group of login:pass
+   followed by a valid text of the remaining <= 2 bytes; when login:pass has a length divisible by 3 the header IS
+   "Basic " ++ base64(login:pass) -- knowing the credentials is necessary. *)
+Theorem accepted_header_spells_credentials :
+  forall login pass auth y z,
+  basic_auth login pass auth = VPass -> login ++ ":" ++ pass = y ++ z -> groups3 y = true ->
+  exists rest s', auth = "Basic " ++ rest /\ strip_nl rest = b64_encode y ++ strip_nl s' /\ b64_go s' [] = (z, true).
+Proof. exact accepted_spells_groups. Qed.
+Print Assumptions accepted_header_spells_credentials.
+
+Theorem accepted_header_is_the_encoding :
+  forall login pass auth,
+  basic_auth login pass auth = VPass -> groups3 (login ++ ":" ++ pass) = true ->
+  exists rest, auth = "Basic " ++ rest /\ strip_nl rest = b64_encode (login ++ ":" ++ pass).
+Proof. exact accepted_spells. Qed.
+Print Assumptions accepted_header_is_the_encoding.
+
 (* why the decode error must be checked (the defect fixed in /repo, kept as basic_auth_unchecked): the decoded
    PREFIX of a malformed text was compared, so "Basic dXNlcjpwYXNz!" passed for user/pass *)
 Theorem ignoring_decode_error_admits_malformed :
@@ -119,6 +137,8 @@ Print Assumptions ignoring_decode_error_admits_malformed.
 Example guarded_example : guarded [AcceptEncoding; BasicAuth; Cors; Logging] = true /\ guarded [AcceptEncoding; Cors] = false.
 Proof. split; reflexivity. Qed.
 Example login_example : has_char ":"%char "admin" = false /\ basic_header "admin" "s3:cret" = "Basic YWRtaW46czM6Y3JldA==".
+Proof. split; reflexivity. Qed.
+Example groups_example : groups3 ("user" ++ ":" ++ "pass") = true /\ b64_encode "user:pass" = "dXNlcjpwYXNz".
 Proof. split; reflexivity. Qed.
 Example fresh_router_fails :
   assembly_ok [ONewRouter 0; OUse 0 BasicAuth; ONewRouter 1;
